@@ -1432,8 +1432,10 @@ def case_limit(c):
     """seconds one case may take (a steered case normally takes well under a second)"""
     if c["kind"] == "jobs_race":
         return 30 + 0.3 * int(c.get("repeat", 0))
-    if c["kind"] == "jobs_seq" or c.get("again"):
-        return 70        # a history of calls; every wait inside is bounded by WAIT, a stalled call ends the history
+    if c["kind"] == "jobs_seq" or c.get("again") or c.get("shape"):
+        # a history of calls / of 3-4 maps on one pool (under a machine load of 250 such a case was seen to need more than
+        # 45 s, unloaded it takes 0.6 s); every wait inside is bounded by WAIT, a stalled call ends the history
+        return 90
     return 45
 
 
